@@ -29,7 +29,7 @@ CLAIMED.update({
             "DESIGN.md section 6 (C04)"),
     "C13": ("exploration",
             "seeded history simulation of the reorder loop against a reference counter recomputed from lattice dumps; reorder->map round trip",
-            "Seeded search over sequences of lines (empty, repeated, all-space, long-then-short) with extra tokenize/update/init calls; the statistics must be a permutation of 1..dim ordered by (reference count desc, id asc) with bit-identical probabilities, where the reference counts one connection-cost evaluation per predecessor/node pair of pristine lattices; the resulting mapping must be accepted and preserve tokenization. Sampled, not exhaustive.",
+            "Seeded search over sequences of lines (empty, repeated, all-space, long-then-short) with extra tokenize/update/init calls; the statistics must be a permutation of 1..dim ordered by (reference count desc, id asc) with non-increasing reported frequencies, where the reference counts one connection-cost evaluation per predecessor/node pair of pristine lattices; the resulting mapping must be accepted and preserve tokenization. Sampled, not exhaustive.",
             "The reference counter reads the lattice through hook H2 (real lattice construction); the reorder/map CLIs are mirrored, not executed.",
             "DESIGN.md section 6 (C13)"),
 })
